@@ -1,6 +1,7 @@
-// C ABI around /repo/depccg/parsing.h for ctypes. Compiled fresh from the repo header.
+// C ABI around <repo>/depccg/parsing.h for ctypes.  Compiled fresh from the repository header on every run.
 #include <climits>
 #include <cstdlib>
+#include <cstring>
 #include "depccg/parsing.h"
 extern "C" {
 typedef int (*py_scaffold)(void* cb, unsigned x, unsigned y, void* results);
@@ -10,9 +11,25 @@ static int c_scaffold(void* cb, unsigned x, unsigned y, std::vector<combinator_r
 static unsigned c_final(parsing::cell_item* it, unsigned* tok, cache_type* c, void* a) { return g_final((void*)it, tok, (void*)c, a); }
 void* cache_new() { return new cache_type(); }
 void cache_free(void* c) { delete (cache_type*)c; }
+unsigned cache_size(void* c) { return ((cache_type*)c)->size(); }
 void results_push(void* r, unsigned cat_id, unsigned rule_id, int head_is_left, const char* op_string, const char* op_symbol) {
   combinator_result c; c.cat_id = cat_id; c.rule_id = rule_id; c.head_is_left = head_is_left; c.op_string = op_string; c.op_symbol = op_symbol;
   ((std::vector<combinator_result>*)r)->push_back(c);
+}
+// ---- pop trace (verification hook of parsing.h, active only with DEPCCG_VERIF set) ----
+struct pop_rec { int fin; unsigned cat; const void* left; const void* right; float in, out; unsigned start, len, head, rule; const void* stored; };
+static std::vector<pop_rec> g_trace; static int g_trace_on = 0;
+static void on_pop(const parsing::cell_item* p, const parsing::cell_item* stored) {
+  if (!g_trace_on) return;
+  g_trace.push_back(pop_rec{p->fin, p->cat, p->left, p->right, p->in_score, p->out_score, p->start_of_span, p->span_length, p->head_id, p->rule_id, stored});
+}
+void trace_enable(int on) { g_trace_on = on; g_trace.clear(); depccg_verif_pop_hook = on ? on_pop : nullptr; }
+unsigned trace_len() { return g_trace.size(); }
+void trace_get(unsigned i, int* fin, unsigned* cat, unsigned long long* left, unsigned long long* right, float* in, float* out,
+               unsigned* start, unsigned* len, unsigned* head, unsigned* rule, unsigned long long* stored) {
+  const pop_rec& r = g_trace[i];
+  *fin = r.fin; *cat = r.cat; *left = (unsigned long long)r.left; *right = (unsigned long long)r.right; *in = r.in; *out = r.out;
+  *start = r.start; *len = r.len; *head = r.head; *rule = r.rule; *stored = (unsigned long long)r.stored;
 }
 int run_parse(float* tag, float* dep, unsigned length, unsigned* roots, unsigned nroots, void* bcb, void* ucb, py_final fin, py_scaffold sc, void* fargs, void* cache,
               unsigned num_tags, float unary_penalty, float beta, int use_beta, unsigned pruning_size, unsigned nbest, unsigned max_step) {
